@@ -776,7 +776,8 @@ func C01(e *core.Env) {
 	}
 	for _, kind := range []string{"in", "containsAll", "containsSome"} {
 		atoms = append(atoms, FAtom{Kind: kind, Path: pp, Strs: []string{"yes"}}, FAtom{Kind: kind, Path: pp, Strs: []string{"yes", "5"}},
-			FAtom{Kind: kind, Path: pp, Strs: []string{"true", NodeID(0), "1"}})
+			FAtom{Kind: kind, Path: pp, Strs: []string{"true", NodeID(0), "1"}},
+			FAtom{Kind: kind, Path: pp, Strs: []string{}}) // the empty list: in nothing / contains all of nothing / some of nothing
 	}
 	for _, q := range []string{"ge", "gt", "lt", "le"} {
 		atoms = append(atoms, FAtom{Kind: "num", Q: q, Path: pp, K: 5})
